@@ -331,9 +331,9 @@ def column (j : Nat) (rows : Rows (List (Option Int))) : TS := rows.map fun r =>
 /-- `nona` on a series: drop the NaN rows -/
 def nona (ts : TS) : TS := ts.filter (·.2.isSome)
 
-/-- `df_unslice(df, ub)` (lines 1744-1751): slice the frame at the bounds with `'(]'`, hand column `j` of slice `i`
-    to bound `i+j`, then per bound (ascending) concatenate what it was handed and drop NaN rows -/
-def unslice (F : Frame) (ub : List Int) : Res (List (Int × TS)) := do
+/-- the body of `df_unslice` for bounds read in increasing order: slice the frame at the bounds with `'(]'`, hand
+    column `j` of slice `i` to bound `i+j`, then per bound (ascending) concatenate what it was handed and drop NaN rows -/
+def unsliceInc (F : Frame) (ub : List Int) : Res (List (Int × TS)) := do
   let n := F.width
   let lbs := Bound.none :: ub.dropLast.map Bound.date
   let slices ← (lbs.zip ub).mapM fun (l, u) => sliceWrap F.rows l (.date u) (some ['(', ']'])
@@ -341,5 +341,12 @@ def unslice (F : Frame) (ub : List Int) : Res (List (Int × TS)) := do
     (((ub.drop i).take n).zipIdx).map fun (u, j) => (u, column j ts)
   let keys := ((rs.map (·.1)).eraseDups).mergeSort (fun a b => decide (a ≤ b))
   pure (keys.map fun u => (u, nona ((rs.filter (·.1 == u)).flatMap (·.2))))
+
+/-- `df_unslice(df, ub)`: a decreasing bound list is read backwards (as `df_slice` does, `_is_non_decreasing`) and the
+    series are handed back in the order of the bounds GIVEN, so that `df_slice(list(res.values()), ub = ub, n)` pairs
+    every series with its bound again (repo fix C13-U1; before it the decreasing list was used as it stood: every
+    window but the first empty) -/
+def unslice (F : Frame) (ub : List Int) : Res (List (Int × TS)) :=
+  if nonDecreasing ub then unsliceInc F ub else (unsliceInc F ub.reverse).map List.reverse
 
 end Pyg.Slice
